@@ -193,6 +193,20 @@ FamFlip(K, CH) ==
                   gr \in {x \in GraphsS(sh, {"plain", "restat", "gen", "rsp", "gcc", "two"}, 3 * K) : GenStmts(x) # {}} \cup GraphsS(sh, {"plain", "restat", "rsp"}, 1) } :
           sh \in {"chain2", "chain3", "fanin", "fanout", "indep", "mixed", "implicit", "oonly"} }
 
+\* "header switch": the set of files a command reads beyond its declared inputs changes with the content of one of its
+\* inputs, while what it writes stays the same (and a correct output is left alone): the recorded dependencies of the
+\* latest run are the ones that count (C03 / C10: "recorded dependencies")
+HswStmt(i, ins, d, h1, h2) == [hsel |-> ins[1], hdrs2 |-> h2] @@ [St1(i, <<O(i)>>, ins, <<>>) EXCEPT !.deps = d, !.hdrs = h1, !.restat = TRUE]
+HswGraphs ==
+  { [Graph(<< HswStmt(1, <<"s1">>, d, hh[1], hh[2]), St1(2, <<"o2">>, <<"o1">>, <<>>) >>) EXCEPT !.srcs = <<"s1", "h1", "h2">>] :
+      d \in {"gcc", "depfile", "msvc"}, hh \in {<< <<"h1">>, <<"h2">> >>, << <<"h1", "h2">>, <<"h1">> >>, << <<"h1">>, <<"h1", "h2">> >>, << <<"h1">>, <<>> >>} }
+FamHsw(K, CH) ==
+  UNION { {Scn(gr, <<Build(Roots(gr), 1, 1), [op |-> "edit", f |-> "s1"], Build(Roots(gr), 1, 1), [op |-> o, f |-> h], Build(Roots(gr), 1, 1), Build(Roots(gr), 1, 1)>>) :
+              o \in {"touch", "edit"}, h \in {"h1", "h2"}}
+          \cup {Scn(gr, <<Build(Roots(gr), 1, 1), [op |-> o, f |-> h], Build(Roots(gr), 1, 1), [op |-> "edit", f |-> "s1"], Build(Roots(gr), 1, 1), Build(Roots(gr), 1, 1)>>) :
+              o \in {"touch"}, h \in {"h1", "h2"}} :
+          gr \in HswGraphs }
+
 \* incremental-build family (C01, C02, C03, C10): shape x profile assignment x single change
 FamInc(K, CH) ==
   UNION { UNION { {Scn(gr, <<Build(Roots(gr), 2, 1), c, Build(Roots(gr), 2, 1), Build(Roots(gr), 2, 1)>>) : c \in Pick(CH, Changes(gr))} :
@@ -633,6 +647,7 @@ Family(name) ==
   CASE name = "inc" -> FamInc(ParK, ParCH)
     [] name = "inc2" -> FamInc2(ParK, ParCH)
     [] name = "flip" -> FamFlip(ParK, ParCH)
+    [] name = "hsw" -> FamHsw(ParK, ParCH)
     [] name = "partial" -> FamPartial(ParK, ParCH)
     [] name = "sched" -> FamSched(ParK, ParCH)
     [] name = "fail" -> FamFail(ParK, ParCH)
